@@ -97,6 +97,28 @@ def executable_programs(run, info):
         yield p
     for p in targeted_jump_programs(info):
         yield p
+    for p in renamed_slice(run, info):
+        yield p
+
+
+def renamed_slice(run, info=None):
+    """In every run: existing programs (all deliberate scenarios and binding scenarios, a sample of skeletons, random programs and
+    jump contexts) with the locals of `f` injectively renamed into prefix-related names (`a`, `a2`, `acc`, `a_`, `ab`, …)."""
+    rng = random.Random(run.seed * 7919 + 17)
+    b = budgets(run)
+    q = run.tier == 'quick'
+    src = list(ds.scenario_programs(random.Random(run.seed + 101), 1)) + list(progen.binding_scenario_programs())
+    src += list(progen.skeleton_programs(b['skel_stmts'], b['skel_depth'], cap=120 if q else 600, rng=random.Random(run.seed + 103), rich=not q))
+    src += list(progen.random_programs(random.Random(run.seed + 105), 80 if q else 400, size=b['random_size']))
+    src += list(progen.jump_context_programs(2, cap=60 if q else 300, rng=random.Random(run.seed + 107)))
+    n = 0
+    for p in src:
+        r = ds.rename_locals(p, random.Random(rng.getrandbits(40)))
+        if r is not None:
+            n += 1
+            yield r
+    if info is not None:
+        info['renamed_slice'] = {'source_programs': len(src), 'renamed': n}
 
 
 def targeted_jump_programs(info=None):
